@@ -14,6 +14,7 @@ CONSTANTS MaxN,        \* bound on the number of node ids ever created
           Texts,       \* text atoms for field edits (small naturals > 0)
           Keys,        \* attribute / extras keys (strings)
           Ops,         \* which actions this instance enables (set of strings)
+          MaxLevel,    \* states at this depth are not expanded (99 = unbounded for our instances)
           InitMode     \* "all": MaxN detached nodes exist, every name assignment
                        \* "none": empty registry, nodes appear through Create/Copy/Import
                        \* "templates": the copy templates of MC_Copy
@@ -32,21 +33,20 @@ Step(S2, o) == st' = S2 /\ op' = o
 Stutter(o)  == st' = st /\ op' = o
 On(x) == x \in Ops
 
-RECURSIVE MkNodes(_, _)
-MkNodes(S, nms) == IF nms = <<>> THEN S ELSE MkNodes(NewNode(S, Head(nms)), Tail(nms))
-
 (* copy templates (MC_Copy): every field populated somewhere, several shapes *)
-T1 == MkNodes(EmptyState, <<"a">>)
-T2 == LET s == MkNodes(EmptyState, <<"a", "b", "a">>)
-      IN [s EXCEPT !.kids = <<<<2, 3>>, <<>>, <<>>>>, !.content = <<NULL, 1, 2>>, !.tail = <<NULL, 2, NULL>>,
-                   !.attrs = << <<<<"k1", 1>>>>, <<>>, <<<<"k1", 2>>, <<"k2", 1>>>> >>]
-T3 == LET s == MkNodes(EmptyState, <<"a", "b", "a", "b">>)
-      IN [s EXCEPT !.kids = <<<<2, 4>>, <<3>>, <<>>, <<>>>>,
-                   !.ns = <<{<<"x", "u">>}, {<<"x", "u">>}, {<<"x", "u">>, <<"y", "v">>}, {<<"x", "u">>}>>,
-                   !.prefix = <<"x", NOSTR, "y", NOSTR>>, !.content = <<NULL, NULL, 1, 1>>,
-                   !.extras = << <<>>, <<<<"k1", 1>>>>, <<<<"k2", 2>>>>, <<>> >>,
-                   !.attrs = << <<<<"k1", 1>>>>, <<>>, <<>>, <<<<"k2", 2>>>> >>]
+(* every template ends with one spare detached node "s" so that AddChild has something to attach *)
+T1 == MkNodes(EmptyState, <<"a", "s">>)
+T2 == LET s == MkNodes(EmptyState, <<"a", "b", "a", "s">>)
+      IN [s EXCEPT !.kids = <<<<2, 3>>, <<>>, <<>>, <<>>>>, !.content = <<NULL, 1, 2, NULL>>, !.tail = <<NULL, 2, NULL, NULL>>,
+                   !.attrs = << <<<<"k1", 1>>>>, <<>>, <<<<"k1", 2>>, <<"k2", 1>>>>, <<>> >>]
+T3 == LET s == MkNodes(EmptyState, <<"a", "b", "a", "b", "s">>)
+      IN [s EXCEPT !.kids = <<<<2, 4>>, <<3>>, <<>>, <<>>, <<>>>>,
+                   !.ns = <<{<<"x", "u">>}, {<<"x", "u">>}, {<<"x", "u">>, <<"y", "v">>}, {<<"x", "u">>}, {}>>,
+                   !.prefix = <<"x", NOSTR, "y", NOSTR, NOSTR>>, !.content = <<NULL, NULL, 1, 1, NULL>>,
+                   !.extras = << <<>>, <<<<"k1", 1>>>>, <<<<"k2", 2>>>>, <<>>, <<>> >>,
+                   !.attrs = << <<<<"k1", 1>>>>, <<>>, <<>>, <<<<"k2", 2>>>>, <<>> >>]
 Templates == {T1, T2, T3}
+ImportShapes == {<<0>>, <<0, 1, 1>>, <<0, 1, 2>>}   \* parent position of each node, in pre-order
 
 Init ==
   /\ op = O("init", <<>>, NULL, TRUE)
@@ -90,6 +90,9 @@ RemoveNamespace(n, q) ==
 Copy(n) ==
   /\ On("copy") /\ Size(st) + Cardinality(Desc(K, n)) <= MaxN
   /\ Step(CopyF(st, n), O("copy", <<n>>, CopyRet(st, n), TRUE))
+Import(kind, shape) ==     \* from_xml / from_json of a document whose ids are fresh: nodes appear in pre-order
+  /\ On("import") /\ Size(st) + Len(shape) <= MaxN
+  /\ Step(ImportF(st, "a", shape), O("import", <<kind, shape>>, Size(st) + 1, TRUE))
 Delete(n, children) ==     \* precondition of the statement: registered id; recursive only over registered nodes
   /\ On("delete") /\ n \in st.store /\ (children => Desc(K, n) \subseteq st.store)
   /\ Step(DeleteF(st, n, children), O("delete", <<n, children>>, NULL, TRUE))
@@ -103,8 +106,9 @@ RemoveAttribute(n, k) == On("remove_attribute") /\ HasKey(st.attrs[n], k)
                          /\ Step(RemoveAttributeF(st, n, k), O("remove_attribute", <<n, k>>, NULL, TRUE))
 AddExtras(n, k, v)    == On("add_extras") /\ Step(AddExtrasF(st, n, k, v), O("add_extras", <<n, k, v>>, NULL, TRUE))
 
-Next ==
+Next == TLCGet("level") < MaxLevel /\
   \/ \E nm \in NameSet : Create(nm)
+  \/ \E kind \in {"xml", "json"}, shape \in ImportShapes : Import(kind, shape)
   \/ \E p, c \in Nodes :
        \/ \E i \in {NOIDX} \cup (0..MaxN) : AddChild(p, c, i)
        \/ RemoveChild(p, c) \/ RemoveChildFail(p, c)
@@ -140,17 +144,16 @@ Frame == [][LET t == Target(op') IN
 NsEffect == [][LET o == op' IN
      /\ o.name = "add_namespace" => \A m \in Desc(K, o.args[1]) : <<o.args[2], o.args[3]>> \in st'.ns[m]
      /\ o.name = "remove_namespace" => \A m \in Desc(K, o.args[1]) : o.args[2] \notin NsDom(st'.ns[m])
-     /\ o.name = "add_child" => /\ st'.ns[o.args[2]] = NsMerge(st.ns[o.args[1]], st.ns[o.args[2]])
-                               /\ \A m \in Desc(K, o.args[2]) : NsDom(st'.ns[o.args[2]]) \subseteq NsDom(st'.ns[m])]_vars
+     /\ o.name = "add_child" => st'.ns[o.args[2]] = NsMerge(st.ns[o.args[1]], st.ns[o.args[2]])]_vars
 (* C09: a failing edit leaves the tree unchanged; shift reports the child's actual new index *)
 FailedEditUnchanged == [][op'.ok = FALSE => st' = st]_vars
 ShiftRetOK == [][op'.name = "shift" /\ op'.ok => op'.ret = ChildIndex(st'.kids, op'.args[1], op'.args[2])]_vars
 (* C14: registry = created minus explicitly discarded *)
 RegistryStep == [][LET o == op' IN
-     /\ o.name \in {"create", "copy"} => st'.store = st.store \cup ((Size(st)+1)..Size(st'))
+     /\ o.name \in {"create", "copy", "import"} => st'.store = st.store \cup ((Size(st)+1)..Size(st'))
      /\ o.name = "delete" => st'.store = st.store \ (IF o.args[2] THEN Desc(K, o.args[1]) ELSE {o.args[1]})
      /\ o.name = "replace_child" /\ o.ok => st'.store = st.store \ (IF o.args[4] THEN Desc(K, o.args[2]) ELSE {})
-     /\ o.name \notin {"create", "copy", "delete", "replace_child"} => st'.store = st.store]_vars
+     /\ o.name \notin {"create", "copy", "import", "delete", "replace_child"} => st'.store = st.store]_vars
 (* C12: right after a copy the two trees are equal, disjoint, and the copy is registered *)
 CopyOK == [][op'.name = "copy" =>
      LET src == op'.args[1]  dst == op'.ret IN
@@ -178,7 +181,12 @@ Queries(S) ==
 
 CONSTANT LogFields        \* which state fields the binding logs (the others are constant in that instance)
 Pj(S) == [f \in LogFields |-> S[f]]
-LogTransition == PrintT(ToJson([k |-> "T", from |-> Pj(st), op |-> op', to |-> Pj(st')]))
+LogTransition == TLCGet("level") < MaxLevel => PrintT(ToJson([k |-> "T", from |-> Pj(st), op |-> op', to |-> Pj(st')]))
 LogState      == PrintT(ToJson([k |-> "S", st |-> Pj(st)]))
+LogStateEq    == TLCGet("level") <= MaxLevel => PrintT(ToJson([k |-> "E", st |-> Pj(st),
+                    eq |-> {<<a, b>> \in Nodes \X Nodes : a # b /\ TreeEq(st, a, b)}]))
+(* MC_Copy: the first step copies a template subtree, then edits follow, to a bounded depth *)
+CopyFirst == op.name = "init" => op'.name = "copy"
+LevelStep == TLCGet("level") < MaxLevel         \* ACTION_CONSTRAINT: states at MaxLevel are not expanded
 LogStateQ     == PrintT(ToJson([k |-> "Q", st |-> Pj(st), q |-> Queries(st)]))
 =============================================================================
